@@ -610,7 +610,7 @@ def replay(ctx, detail: dict) -> bool:
                                                          enumerate(zip(o["pres"], posts))], [], "replay")
         print("post-conditions broken per top (TLC):", [f[0] for f in fv])
         clause = (detail.get("_signature", "").split(":") + ["", "", ""])[2]
-        return any((clause in f[0]) if clause else bool(f[0]) for f in fv)
+        return any(any(b.startswith(clause) for b in f[0]) if clause else bool(f[0]) for f in fv)
     if part == "B":
         o = names_fix.run_instance(detail["S"], detail["vname"], detail["nname"])
         if "error" in o:
@@ -619,7 +619,7 @@ def replay(ctx, detail: dict) -> bool:
         fv, _ = judge(ctx, [detail["S"]["raw"]], [[1, o["pre"], o["post"], False]], [], "replay")
         print("post-conditions broken (TLC):", fv[0][0])
         clause = (detail.get("_signature", "").split(":") + ["", "", ""])[2]
-        return (clause in fv[0][0]) if clause else bool(fv[0][0])
+        return any(b.startswith(clause) for b in fv[0][0]) if clause else bool(fv[0][0])
     if part == "C":
         o = names_rename.run_instance(detail["pre"], detail["pairs"])
         if "error" in o:
